@@ -19,11 +19,14 @@ import time
 
 VERIF = os.path.dirname(os.path.dirname(os.path.abspath(__file__)))
 SPEC = os.path.join(VERIF, "spec")
-HARNESS = os.path.join(VERIF, "harness")
+# The registered checks always use /verif/harness (path dependency on /repo). For measuring detection of
+# seeded changes without touching /repo, tools/mutant.py points these at a scratch copy of the harness
+# whose dependency is a scratch worktree, and at scratch work/evidence/replay directories.
+HARNESS = os.environ.get("VERIF_HARNESS") or os.path.join(VERIF, "harness")
 HARNESS_ASYNC = os.path.join(VERIF, "harness-async")
-WORK = os.path.join(VERIF, ".work")
-REPLAYS = os.path.join(VERIF, "replays")
-EVIDENCE = os.path.join(VERIF, "evidence")
+WORK = os.environ.get("VERIF_WORK") or os.path.join(VERIF, ".work")
+REPLAYS = os.environ.get("VERIF_REPLAYS") or os.path.join(VERIF, "replays")
+EVIDENCE = os.environ.get("VERIF_EVIDENCE") or os.path.join(VERIF, "evidence")
 TLA_CP = "/opt/veriftools/tla/tla2tools.jar:/opt/veriftools/tla/CommunityModules-deps.jar"
 
 
